@@ -343,7 +343,15 @@ namespace hgraph
         // the wiring is stable (and idempotent on a pause/resume re-entry).
         single_nested_graph_bind_inputs(nested, evaluation_time);
         single_nested_graph_bind_output(nested, evaluation_time);
-        return nested.child_graph().evaluate(evaluation_time);
+        const bool completed = nested.child_graph().evaluate(evaluation_time);
+        // The output alias is flattened to the source's current target when it
+        // is bound. A forwarding output produced inside the child (a nested
+        // pass-through, a switch) may have re-pointed during this evaluation,
+        // so resolve the alias again now that the child has had its turn;
+        // otherwise this node would keep forwarding the previous target until
+        // its next evaluation.
+        single_nested_graph_bind_output(nested, evaluation_time);
+        return completed;
     }
 
     void single_nested_graph_bind_inputs(const SingleNestedGraphNodeView &nested,
